@@ -186,7 +186,14 @@ func run(ci any, r *mon.Rec) {
 			continue
 		}
 		winLo, winHi := int(dq.Addr), int(dq.Addr)+got // what the device actually delivered, at the address the packet asked for
+		complete := got == int(dq.Qty)
 		inWin := func(f modbus.Field) bool {
+			if complete {
+				// the device delivered everything that was asked for: the builder is responsible for having asked for
+				// enough, so every field it put into this request must be extractable (a field whose span is 65536 or
+				// beyond cannot be: the device would have refused the request)
+				return true
+			}
 			return int(f.Address) >= winLo && int(f.Address)+fieldgen.RegSize(f) <= winHi
 		}
 		anyOut := false
